@@ -864,6 +864,13 @@ start_pass(j_compress_ptr cinfo, boolean gather_statistics)
       tbl = compptr->dc_tbl_no;
       if (tbl < 0 || tbl >= NUM_ARITH_TBLS)
         ERREXIT1(cinfo, JERR_NO_ARITH_TABLE, tbl);
+      /* The conditioning values go into a DAC marker as two 4-bit fields, and
+       * the decompressor rejects L > U.
+       */
+      if (cinfo->arith_dc_L[tbl] > cinfo->arith_dc_U[tbl] ||
+          cinfo->arith_dc_U[tbl] > 15)
+        ERREXIT1(cinfo, JERR_DAC_VALUE,
+                 cinfo->arith_dc_L[tbl] + (cinfo->arith_dc_U[tbl] << 4));
       if (entropy->dc_stats[tbl] == NULL)
         entropy->dc_stats[tbl] = (unsigned char *)(*cinfo->mem->alloc_small)
           ((j_common_ptr)cinfo, JPOOL_IMAGE, DC_STAT_BINS);
